@@ -139,7 +139,7 @@ def _gen_slip(rng):
                 passphrase=rng.choice(["", "TREZOR", "abc"]), exponent=rng.choice([0, 1]), extendable=rng.random() < 0.5, pick_seed=rng.getrandbits(30))
 
 
-@contract("contracts.c_mnemonic.slip39_run", gen=_gen_slip, props="C13", n_quick=25, n_thorough=400,
+@contract("contracts.c_mnemonic.slip39_run", gen=_gen_slip, props="C13", n_quick=25, n_thorough=200,
           rule="master secrets of 16..64 bytes (every padding width), 1..3 groups of 1..5 members, every threshold, iteration exponents 0/1, extendable flag; one qualifying subset in random order, a wrong passphrase, one member short")
 class Slip39Bounded:
     def post_threshold_recovery(secret, result):
@@ -197,7 +197,7 @@ def _gen_electrum(rng):
     return dict(mnemonic_type=t, entropy=rng.randrange(2 ** (bits - 1), 2 ** bits), lang=lang)
 
 
-@contract("contracts.c_mnemonic.electrum_run", gen=_gen_electrum, props="C13", n_quick=40, n_thorough=300,
+@contract("contracts.c_mnemonic.electrum_run", gen=_gen_electrum, props="C13", n_quick=40, n_thorough=150,
           rule="four seed versions x eleven languages (CJK included) x entropies worth 11..24 words; one-word substitution")
 class ElectrumBounded:
     """the sentence written for a version is read back as that version, its HMAC('Seed version')
